@@ -197,9 +197,12 @@ def run_case(case):
     except MF.CompileError as e:
         model, merr = None, str(e)
     except MF.Unspecified as e:
-        return {"tags": tags, "discarded": "undocumented source text: " + str(e), "nontrivial": False}
+        model, merr = None, e
     vm, verr = try_compile(case)
     other, oerr = try_compile(case, bits=96 - case["bits"])
+    if isinstance(merr, MF.Unspecified):
+        # neither accepted nor rejected by the documentation: compiling must not crash, nothing else is asserted
+        return {"tags": tags, "discarded": "undocumented source text: " + str(merr), "nontrivial": False}
     if (vm is None) != (other is None):
         raise Violation("compile:width-dependent", "ForthMachine32 and ForthMachine64 disagree on whether the source compiles", verr, oerr, "compile-time faults")
     if model is None and vm is not None:
@@ -243,6 +246,9 @@ def run_case(case):
     npauses = sum(1 for t in mtrace0 if t[0] == "resume")
     if npauses:
         tags.append("pauses:%d" % min(npauses, 3))
+    smallest = min(g[0] for g in case["growth"])
+    if any(len(v[1]) > smallest for v in final_m[2]["outputs"].values()):
+        tags.append("output-grew")
     looped = bool(model.census & {"exec:do", "exec:begin", "exec:call"})
     io = bool(model.census & {"exec:read", "exec:write", "exec:write+", "exec:write-direct"})
     nontrivial = looped and io
